@@ -114,7 +114,8 @@ class Gen:
             flds.append(self.fld('ns', self.V('Str', 'urn:d')))
             ns_ref = ('', 'urn:d')
         elif nk == 'pair':
-            flds.append(self.fld('ns', self.V('Tuple', VecV([self.fld('prefix', self.V('Str', 'p')), self.fld('uri', self.V('Str', 'urn:p'))]))))
+            # the ns tuple's own fields follow the document's field order too (uri before prefix when reversed)
+            flds.append(self.fld('ns', self.V('Tuple', VecV(self.order([self.fld('prefix', self.V('Str', 'p')), self.fld('uri', self.V('Str', 'urn:p'))])))))
             ns_ref = ('p', 'urn:p')
         elif nk == 'pair-null-prefix':
             flds.append(self.fld('ns', self.V('Tuple', VecV([self.fld('prefix', self.V('Empty')), self.fld('uri', self.V('Str', 'urn:p'))]))))
